@@ -15,7 +15,9 @@ LEVEL = "exploration"
 MOD = "mc.checks.c11"
 
 ASSUMPTIONS = [
-    "admissible coefficients = balance points inside [T_min_seg, T_max_seg] (hdd_bp <= cdd_bp), slope magnitudes in "
+    "admissible coefficients = balance points inside [T_min_seg, T_max_seg] (hdd_bp <= cdd_bp; two-slope documents written with the "
+    "balance points in reverse order are read as the same curve with the branches exchanged), intercepts {0.5, 50, and -6 for a "
+    "net-metered site}, slope magnitudes in "
     "{0.05,1,20}, smoothing fractions in [0,1] (full smooth model) / smoothing lengths >= 0 (one-sided smooth models), "
     "stored sign conventions of ModelCoefficients; nothing is claimed between lattice points",
     "'balance point' of a smoothed model = the effective (inward-shifted) balance point; the straight line a smoothed "
@@ -49,6 +51,15 @@ def cases(tier):
     for shape in dd.SHAPES:
         for i in range(len(dd.lattice(shape, tier, dd.TC_TIED))):
             out.append({"shape": shape, "tc": "tied", "i": i})
+    # a negative temperature-independent load (net-metered site: the fitted intercept of a solar home is below zero): every 3rd point
+    for shape in dd.SHAPES:
+        for i in range(0, len(dd.lattice(shape, tier, dd.TC_WIDE)), 1 if tier == "thorough" else 3):
+            out.append({"shape": shape, "tc": "wide", "i": i, "intercept": -6.0})
+    # two-slope documents whose balance points are written in reverse order (hdd_bp > cdd_bp, each with its own slope and smoothing):
+    # inside the optimiser's bounds, read as the same curve with the two branches exchanged
+    for shape in ("hdd_tidd_cdd", "hdd_tidd_cdd_smooth"):
+        for i in range(0, len(dd.lattice(shape, tier, dd.TC_WIDE)), 1 if tier == "thorough" else 2):
+            out.append({"shape": shape, "tc": "wide", "i": i, "reversed_bps": True})
     # the same documents with the keys of every JSON object sorted / reversed (key order carries no meaning): every 4th point
     for order in ("sorted", "reversed"):
         for shape in dd.SHAPES:
@@ -216,9 +227,16 @@ def run_case(case):
     else:
         tc = {"wide": dd.TC_WIDE, "narrow": dd.TC_NARROW, "tied": dd.TC_TIED}[case["tc"]]
         c = dd.lattice(case["shape"], case.get("tier", "quick"), tc)[case["i"]]
+        if case.get("intercept") is not None:
+            c = dict(c, intercept=case["intercept"])
         e = curve.effective(c, tc)
         T = temps_for(c, tc, e)
-        doc = dd.document({"fw-su_sh_wi": dd.submodel(c, tc)}, _settings())
+        c_doc = c
+        if case.get("reversed_bps"):
+            if not c["hdd_bp"] < c["cdd_bp"]:
+                return {"rejected": "balance points coincide: nothing to reverse"}
+            c_doc = dict(c, hdd_bp=c["cdd_bp"], hdd_beta=c["cdd_beta"], hdd_k=c["cdd_k"], cdd_bp=c["hdd_bp"], cdd_beta=c["hdd_beta"], cdd_k=c["hdd_k"])
+        doc = dd.document({"fw-su_sh_wi": dd.submodel(c_doc, tc)}, _settings())
         if case.get("key_order"):
             doc = reorder(doc, case["key_order"])
         m = em.DailyModel.from_dict(doc)
@@ -254,7 +272,9 @@ def run_case(case):
         viol.append({"clause": clause, "key": {"shape": c["model_type"] if case["shape"] == "legacy2" else case["shape"], "smoothing": fr, **edge,
                                                **({"document": "2.0"} if case["shape"] == "legacy2" else {}),
                                                **({"key_order": case["key_order"]} if case.get("key_order") else {}),
-                                               **({"t_dtype": case["t_dtype"]} if case.get("t_dtype") else {})},
+                                               **({"t_dtype": case["t_dtype"]} if case.get("t_dtype") else {}),
+                                               **({"intercept": "negative"} if case.get("intercept") is not None else {}),
+                                               **({"document": "reversed_balance_points"} if case.get("reversed_bps") else {})},
                      "detail": f"{detail} | coefficients {c} tc {tc}"})
     pr = p["predicted"].to_numpy(float)
     beh = [case["shape"] + ":" + case.get("key_order", "") + case.get("t_dtype", ""), bool(e.get("flat")), round(float(pr.min()), 6), round(float(pr.max()), 6), len(got)]
